@@ -361,12 +361,12 @@ func buildHandlers() map[string]handler {
 	h["(time.Time).Equal"] = func(e *Exec, fn *ssa.Function, a []Value) Value { return Eq(e.timeNS(a[0]), e.timeNS(a[1])) }
 	h["(time.Time).IsZero"] = func(e *Exec, fn *ssa.Function, a []Value) Value { return Eq(e.timeNS(a[0]), KBig(zeroTimeNS)) }
 	h["(time.Time).Sub"] = func(e *Exec, fn *ssa.Function, a []Value) Value {
-		return Sat64(RawSub(e.timeNS(a[0]), e.timeNS(a[1])))
+		return e.satT(RawSub(e.timeNS(a[0]), e.timeNS(a[1])))
 	}
 	h["(time.Time).Add"] = func(e *Exec, fn *ssa.Function, a []Value) Value {
 		return e.mkTime(resultType(fn, 0), RawAdd(e.timeNS(a[0]), a[1].(*Term)))
 	}
-	h["(time.Time).UnixNano"] = func(e *Exec, fn *ssa.Function, a []Value) Value { return Wrap(e.timeNS(a[0]), 64, true) }
+	h["(time.Time).UnixNano"] = func(e *Exec, fn *ssa.Function, a []Value) Value { return e.wrapT(e.timeNS(a[0]), 64, true, false) }
 	h["(time.Time).Unix"] = func(e *Exec, fn *ssa.Function, a []Value) Value {
 		return floorDiv(e.timeNS(a[0]), K(1000000000))
 	}
@@ -890,3 +890,10 @@ func (e *Exec) deepCopy(v Value) Value {
 }
 
 var _ = sort.Strings
+
+func (e *Exec) satT(t *Term) *Term {
+	if !t.IsConst() && e.interval(t, 0).within(typeRange(64, true)) {
+		return t
+	}
+	return Sat64(t)
+}
